@@ -280,6 +280,11 @@ fn rich_program() -> Program {
         isteps.push(ImgStep::Rep(vis));
         calls.push(Call::Img { guid: format!("img-{k}"), steps: isteps, end: SubEnd::Finalize });
     }
+    // a second, small cloud whose intensity and colours are scaled integers with a NEGATIVE scale;
+    // their limits are written with the scaled-integer kind of the records
+    let neg = |min: i64, max: i64| DType::Scaled { min, max, scale: B64::of(-0.5), offset: B64::of(1.0) };
+    let proto2 = vec![std(0, f64t.clone()), std(1, f64t.clone()), std(2, f64t.clone()), std(8, neg(-50, 50)), std(10, neg(0, 255)), std(11, neg(0, 255)), std(12, neg(0, 255))];
+    calls.push(Call::Pc { guid: "pc-guid-2".into(), proto: proto2, steps: vec![PcStep::Points { n: 3, seed: 6 }], end: SubEnd::Finalize });
     Program { guid: "file-guid".into(), calls, end: End::Finalize, knob: None, on_error: OnError::Stop }
 }
 
@@ -648,11 +653,25 @@ pub fn gen_untrusted(rc: &RunCtx) -> Case {
         }
     }
     let mut f = Rng::stream(rc.run_seed, "fault");
+    let mut blob_probes = Vec::new();
     let plan = match build_image(&prog, &source, None).ok().and_then(|(img, _)| corrupt::map_of(&img).map(|m| (img, m))) {
-        Some((img, map)) => corrupt::draw_plan(&mut f, &img, &map, size_targeted),
+        Some((img, map)) => {
+            let plan = corrupt::draw_plan(&mut f, &img, &map, size_targeted);
+            // a manipulated blob section length together with a descriptor that matches it (the
+            // reader checks the one against the other)
+            for m in &plan.muts {
+                if let Mut::BlobHeader { blob, field: 1, value } = m {
+                    if !map.blobs.is_empty() {
+                        let b = &map.blobs[blob % map.blobs.len()];
+                        blob_probes.push((b.phys_offset, value.saturating_sub(16)));
+                        blob_probes.push((b.phys_offset, *value));
+                    }
+                }
+            }
+            plan
+        }
         None => Plan { muts: vec![Mut::AnyBits { seed: 1, n: 1 }], sealed: true, media: vec![] },
     };
-    let mut blob_probes = Vec::new();
     if f.chance(1, 3) {
         for _ in 0..(1 + f.below(3)) {
             let off = *f.pick(&[0u64, 48, 1020, 1024, 1021, u64::MAX, 1 << 40, 2048]);
@@ -750,7 +769,7 @@ impl Prop for Untrusted {
         }
     }
     fn meta(&self) -> Meta {
-        let common = "16 run indices (64 in thorough) enumerate EXHAUSTIVELY the tree-level XML mutations of one rich file (point cloud with every attribute group, all metadata, three images with all representation kinds and masks): every element dropped; every numeric leaf and every attribute set to each of 6 (16) extreme texts; every pair (element dropped, numeric sibling of the same parent set to an extreme) - sealed, all entry points driven. Other indices: valid file (crate writer or refcodec producer, at least one point cloud) -> corruption plan located with refcodec's map of the file: 1-3 mutations of header fields, XML numbers (NaN, inf, 1e999, -0, i64/u64 extremes, empty, garbage), XML attributes (fileOffset/recordCount/length -> 0, huge, unaligned, inside a checksum, another section; minimum/maximum/scale/offset/precision/type), dropped / duplicated / moved / emptied elements, DTD and entity templates, ill-formed fragments, compressed-vector and blob section header fields, packet header fields and stream lengths, payload bits; then all page checksums recomputed (3 of 4 plans: the mutation reaches the parsers) or left as they are; plus stale / misdirected pages, truncation and extension by pages or odd byte counts (1 of 5 plans); every fifth plan is size-targeted (huge recordCount, every record zero-width, maximal stream lengths, XML length at the 10 MiB cap, page size near 1 MiB, huge blob lengths). Applied before open, or to the stored bytes between two operations of an open reader. Every entry point is driven: validate_crc, raw_xml, E57Reader::new, listings and descriptor helpers, raw and simple iteration (drawn option vector) step by step to the first Err/None, every listed blob plus Blob::new probes with hostile offsets/lengths. Runs execute in child processes (abort, hang > 20 s and allocations beyond a 1 GiB ceiling are attributed to the run in flight).";
+        let common = "16 run indices (64 in thorough) enumerate EXHAUSTIVELY the tree-level XML mutations of one rich file (point cloud with every attribute group, all metadata, a second cloud with negatively scaled integer intensity and colours, three images with all representation kinds and masks): every element dropped; every numeric leaf and every attribute set to each of 6 (16) extreme texts; every pair (element dropped, numeric sibling of the same parent set to an extreme) - sealed, all entry points driven. Other indices: valid file (crate writer or refcodec producer, at least one point cloud) -> corruption plan located with refcodec's map of the file: 1-3 mutations of header fields, XML numbers (NaN, inf, 1e999, -0, i64/u64 extremes, empty, garbage), XML attributes (fileOffset/recordCount/length -> 0, huge, unaligned, inside a checksum, another section; minimum/maximum/scale/offset/precision/type), dropped / duplicated / moved / emptied elements, DTD and entity templates, ill-formed fragments, compressed-vector and blob section header fields, packet header fields and stream lengths, payload bits; then all page checksums recomputed (3 of 4 plans: the mutation reaches the parsers) or left as they are; plus stale / misdirected pages, truncation and extension by pages or odd byte counts (1 of 5 plans); every fifth plan is size-targeted (huge recordCount, every record zero-width, maximal stream lengths, XML length at the 10 MiB cap, page size near 1 MiB, huge blob lengths). Applied before open, or to the stored bytes between two operations of an open reader. Every entry point is driven: validate_crc, raw_xml, E57Reader::new, listings and descriptor helpers, raw and simple iteration (drawn option vector) step by step to the first Err/None, every listed blob plus Blob::new probes with hostile offsets/lengths. Runs execute in child processes (abort, hang > 20 s and allocations beyond a 1 GiB ceiling are attributed to the run in flight).";
         if self.budgets {
             Meta {
                 level: "exploration",
